@@ -405,6 +405,9 @@ class DataLoader(object):
                 needed_message_types = message_types
             needed_message_types = set(needed_message_types)
 
+        # The types whose (new) entries are populated by this call. Entries served from the cache are left untouched.
+        new_message_types = set(needed_message_types)
+
         # Make cache entries for the messages to be read.
         supported_message_types = set()
 
@@ -456,6 +459,12 @@ class DataLoader(object):
             # Nothing to read. Return cached data.
             logger.debug('Requested data already cached. [# types=%d, time_range=%s]' %
                          (len(message_types), str(time_range)))
+            # Entries created by this call stay empty, but get their (empty) numpy members like any other new entry.
+            if return_numpy:
+                DataLoader.to_numpy({t: entry for t, entry in result.items() if t in new_message_types},
+                                    remove_nan_times=remove_nan_times,
+                                    keep_messages=keep_messages, keep_message_bytes=return_bytes,
+                                    keep_message_index=return_message_index)
             return result
 
         # Reset the filter criteria for the reader.
@@ -597,7 +606,7 @@ class DataLoader(object):
                         payload=payload,
                         message_bytes=message_bytes if return_bytes else None,
                         message_index=message_index if return_message_index else None)
-                else:
+                elif header.message_type in new_message_types:
                     data_cache[header.message_type].add_message(
                         payload=payload,
                         message_bytes=message_bytes if return_bytes else None,
@@ -629,7 +638,7 @@ class DataLoader(object):
                         payload=payload,
                         message_bytes=message_bytes if return_bytes else None,
                         message_index=message_index if return_message_index else None)
-                else:
+                elif header.message_type in new_message_types:
                     data_cache[header.message_type].add_message(
                         payload=payload,
                         message_bytes=message_bytes if return_bytes else None,
@@ -641,7 +650,8 @@ class DataLoader(object):
 
         # Convert the resulting message data to numpy (if supported).
         if return_numpy:
-            DataLoader.to_numpy(result, remove_nan_times=remove_nan_times,
+            DataLoader.to_numpy({t: entry for t, entry in result.items() if t in new_message_types},
+                                remove_nan_times=remove_nan_times,
                                 keep_messages=keep_messages, keep_message_bytes=return_bytes,
                                 keep_message_index=return_message_index)
 
